@@ -27,5 +27,5 @@ SPEC = dict(
                'nodes. Exhaustive-in-the-small is the right level: rebalancing cases depend only on local shape, and all of them occur below ~12 nodes.',
     level_note='trusted: the harness walker/model; shapes are re-materialised by cloning library-produced structures through the public node fields; '
                'the unpacked node layout is built with -DA_SIZE_POINTER=1 on this 64-bit host (pointers stay 8 bytes wide)',
-    technique='bounded-exhaustive shape enumeration + random histories, invariant walker and reference model after every call, ASan/UBSan',
+    technique='bounded-exhaustive shape enumeration + random histories in both node layouts, invariant walker and reference model after every call, comparators of arbitrary magnitude, ASan/UBSan',
 )
